@@ -1,10 +1,10 @@
 use std::{collections::HashMap, sync::Arc, time::Duration};
 
+#[cfg(feature = "verif")]
+use crate::verif_locks::{Mutex, RwLock};
 use emmylua_code_analysis::{EmmyLuaAnalysis, FileId, Profile};
 use log::{debug, info};
 use lsp_types::{Diagnostic, Uri};
-#[cfg(feature = "verif")]
-use crate::verif_locks::{Mutex, RwLock};
 #[cfg(not(feature = "verif"))]
 use tokio::sync::{Mutex, RwLock};
 use tokio_util::sync::CancellationToken;
